@@ -28,7 +28,7 @@ ASSUMPTIONS = ["budget = 1000 + 400 * number of nodes of the logical plan for si
 STAGES = ["simplified-logical", "tuned-logical", "physical", "simplified-physical", "fused"]
 CONFIG = {
     "quick": {"budget_s": 50, "programs": 1500, "case_timeout_s": 60},
-    "thorough": {"budget_s": 600, "programs": 30000, "case_timeout_s": 120},
+    "thorough": {"budget_s": 600, "programs": 8000, "case_timeout_s": 120},
 }
 
 
